@@ -260,3 +260,35 @@ func HarnessExportOverEarlierFile(k int, extra int) {
 	_ = db2.Close()
 	vh.Reach("end")
 }
+
+// HarnessCheckpointMismatch (C17): an import whose block at the newest checkpoint height has a
+// different hash makes start-up fail. A chain of k headers is exported; the newest checkpoint
+// sits at an arbitrary height of that chain (the tip included) with a hash that is not the
+// chain's hash there; Init with the prepared file must return an error.
+func HarnessCheckpointMismatch(k int) {
+	pre := c17Chain(k)
+	file := vhdb.TempRelPath(".csv.gz")
+	vh.Assert("C17/export-succeeds", c17Export(pre, file) == nil)
+
+	saved := config.Checkpoints
+	defer func() { config.Checkpoints = saved }()
+	c := vh.Choose(k)
+	wrong := chainhash.Hash(vh.NondetHash("checkpointHash"))
+	vh.Assume(!vh.HashEq(wrong, pre[c].Hash))
+	older := chainhash.Hash(pre[0].Hash)
+	config.Checkpoints = []chaincfg.Checkpoint{{Height: 0, Hash: &older}, {Height: int32(c), Hash: &wrong}}
+	if c == 0 {
+		config.Checkpoints = config.Checkpoints[1:]
+	}
+	dst := &config.AppConfig{
+		Db:  &config.DbConfig{Engine: config.DBSQLite, SchemaPath: vhdb.MigrationsDir(), SQLite: config.SQLiteConfig{FilePath: vhdb.TempPath()}, PreparedDb: true, PreparedDbFilePath: file},
+		P2P: &config.P2PConfig{ChainNetType: config.MainNet},
+	}
+	db2, err := Init(dst, vh.Logger())
+	vh.Observe("refused", err != nil)
+	vh.Assert("C17/checkpoint-mismatch-fails-the-start", err != nil)
+	if db2 != nil {
+		_ = db2.Close()
+	}
+	vh.Reach("end")
+}
